@@ -35,8 +35,8 @@ theorem anyMarked_snoc (ms : List (Bool × Bool × Bool)) (o a b : Bool) :
 
 /-- Per-handler invariant relative to the shared state. -/
 structure HOk (closing : Bool) (cpc : ClosePc) (h : Handler) : Prop where
-  exch : h.started = h.completed + (if h.pc.inExchange then 1 else 0)
-  mlen : h.marks.length = h.completed
+  exch : h.started = h.completed + h.hijacked + h.aborted + (if h.pc.inExchange then 1 else 0)
+  mlen : h.marks.length + h.cresps = h.completed
   mark : MarksOk h.marks
   dec : ∀ b, (h.pc = .decided b ∨ h.pc = .writing b) → b = (h.reqClose || h.resClose || h.obsAtDecision)
   obs : h.obsAtDecision = true → closing = true
@@ -52,7 +52,7 @@ structure HOk (closing : Bool) (cpc : ClosePc) (h : Handler) : Prop where
 
 macro "hok_tac" : tactic => `(tactic|
   (constructor <;> simp_all [Pc.inExchange, Pc.winding, Pc.afterClosing, Pc.counted, Pc.readable, ClosePc.holdsMu,
-      anyMarked_snoc, MarksOk_snoc]))
+      anyMarked_snoc, MarksOk_snoc] <;> (try omega)))
 
 theorem hstep_ok_spawn {closing : Bool} {cpc : ClosePc} {h h' : Handler}
     (hg : cpc = .returned → closing = true) (ok : HOk closing cpc h)
@@ -171,11 +171,12 @@ theorem hstep_ok_writeEnd {closing : Bool} {cpc : ClosePc} {h h' : Handler}
   clear e4
   subst hs
   cases b
-  · constructor <;> simp_all [Pc.inExchange, Pc.winding, Pc.afterClosing, Pc.counted, anyMarked_snoc]
-    · exact MarksOk_snoc e3 (by simp)
+  · have hm := MarksOk_snoc (o := h.obsAtDecision) (a := h.reqClose || h.resClose) (b := false) e3 (by simp [e4'])
+    clear e4'
+    constructor <;> simp_all [Pc.inExchange, Pc.winding, Pc.afterClosing, Pc.counted, anyMarked_snoc] <;> (try omega)
   · have hm := MarksOk_snoc (o := h.obsAtDecision) (a := h.reqClose || h.resClose) (b := true) e3 (by simp [e4'])
     clear e4'
-    constructor <;> simp_all [Pc.inExchange, Pc.winding, Pc.afterClosing, Pc.counted, anyMarked_snoc]
+    constructor <;> simp_all [Pc.inExchange, Pc.winding, Pc.afterClosing, Pc.counted, anyMarked_snoc] <;> (try omega)
 
 theorem hstep_ok_closeConn {closing : Bool} {cpc : ClosePc} {h h' : Handler}
     (hg : cpc = .returned → closing = true) (ok : HOk closing cpc h)
@@ -190,6 +191,100 @@ theorem hstep_ok_finish {closing : Bool} {cpc : ClosePc} {h h' : Handler}
   obtain ⟨e1, e2, e3, e4, e5, e6, e7, e8, e9, e9', e9'', e10, e11⟩ := ok
   cases hpc : h.pc <;> simp [hstep, hpc, Pc.readable] at hs
   all_goals (first | (obtain ⟨hc, hs⟩ := hs; subst hs; hok_tac) | (subst hs; hok_tac))
+
+theorem hstep_ok_gotConnect {closing : Bool} {cpc : ClosePc} {h h' : Handler}
+    (hg : cpc = .returned → closing = true) (ok : HOk closing cpc h)
+    (hs : hstep closing cpc.holdsMu (decide (cpc = .returned)) h (.gotConnect) = some h') : HOk closing cpc h' := by
+  obtain ⟨e1, e2, e3, e4, e5, e6, e7, e8, e9, e9', e9'', e10, e11⟩ := ok
+  cases hpc : h.pc <;> simp [hstep, hpc, Pc.readable] at hs
+  all_goals (first | (obtain ⟨hc, hs⟩ := hs; subst hs; hok_tac) | (subst hs; hok_tac))
+
+theorem hstep_ok_hijack {closing : Bool} {cpc : ClosePc} {h h' : Handler}
+    (hg : cpc = .returned → closing = true) (ok : HOk closing cpc h)
+    (hs : hstep closing cpc.holdsMu (decide (cpc = .returned)) h (.hijack) = some h') : HOk closing cpc h' := by
+  obtain ⟨e1, e2, e3, e4, e5, e6, e7, e8, e9, e9', e9'', e10, e11⟩ := ok
+  cases hpc : h.pc <;> simp [hstep, hpc, Pc.readable] at hs
+  all_goals (first | (obtain ⟨hc, hs⟩ := hs; subst hs; hok_tac) | (subst hs; hok_tac))
+
+theorem hstep_ok_dialStart {closing : Bool} {cpc : ClosePc} {h h' : Handler}
+    (hg : cpc = .returned → closing = true) (ok : HOk closing cpc h)
+    (hs : hstep closing cpc.holdsMu (decide (cpc = .returned)) h (.dialStart) = some h') : HOk closing cpc h' := by
+  obtain ⟨e1, e2, e3, e4, e5, e6, e7, e8, e9, e9', e9'', e10, e11⟩ := ok
+  cases hpc : h.pc <;> simp [hstep, hpc, Pc.readable] at hs
+  all_goals (first | (obtain ⟨hc, hs⟩ := hs; subst hs; hok_tac) | (subst hs; hok_tac))
+
+theorem hstep_ok_dialEnd {closing : Bool} {cpc : ClosePc} {h h' : Handler} {dk : Bool}
+    (hg : cpc = .returned → closing = true) (ok : HOk closing cpc h)
+    (hs : hstep closing cpc.holdsMu (decide (cpc = .returned)) h (.dialEnd dk) = some h') : HOk closing cpc h' := by
+  obtain ⟨e1, e2, e3, e4, e5, e6, e7, e8, e9, e9', e9'', e10, e11⟩ := ok
+  cases hpc : h.pc <;> simp [hstep, hpc, Pc.readable] at hs
+  all_goals (first | (obtain ⟨hc, hs⟩ := hs; subst hs; hok_tac) | (subst hs; hok_tac))
+
+theorem hstep_ok_mitmAccept {closing : Bool} {cpc : ClosePc} {h h' : Handler}
+    (hg : cpc = .returned → closing = true) (ok : HOk closing cpc h)
+    (hs : hstep closing cpc.holdsMu (decide (cpc = .returned)) h (.mitmAccept) = some h') : HOk closing cpc h' := by
+  obtain ⟨e1, e2, e3, e4, e5, e6, e7, e8, e9, e9', e9'', e10, e11⟩ := ok
+  cases hpc : h.pc <;> simp [hstep, hpc, Pc.readable] at hs
+  all_goals (first | (obtain ⟨hc, hs⟩ := hs; subst hs; hok_tac) | (subst hs; hok_tac))
+
+theorem hstep_ok_cwriteStart {closing : Bool} {cpc : ClosePc} {h h' : Handler}
+    (hg : cpc = .returned → closing = true) (ok : HOk closing cpc h)
+    (hs : hstep closing cpc.holdsMu (decide (cpc = .returned)) h (.cwriteStart) = some h') : HOk closing cpc h' := by
+  obtain ⟨e1, e2, e3, e4, e5, e6, e7, e8, e9, e9', e9'', e10, e11⟩ := ok
+  cases hpc : h.pc <;> simp [hstep, hpc, Pc.readable] at hs
+  all_goals (first | (obtain ⟨hc, hs⟩ := hs; subst hs; hok_tac) | (subst hs; hok_tac))
+
+theorem hstep_ok_writeErr {closing : Bool} {cpc : ClosePc} {h h' : Handler}
+    (hg : cpc = .returned → closing = true) (ok : HOk closing cpc h)
+    (hs : hstep closing cpc.holdsMu (decide (cpc = .returned)) h (.writeErr) = some h') : HOk closing cpc h' := by
+  obtain ⟨e1, e2, e3, e4, e5, e6, e7, e8, e9, e9', e9'', e10, e11⟩ := ok
+  cases hpc : h.pc <;> simp [hstep, hpc, Pc.readable] at hs
+  all_goals (first | (obtain ⟨hc, hs⟩ := hs; subst hs; hok_tac) | (subst hs; hok_tac))
+
+theorem hstep_ok_tunnelEnd {closing : Bool} {cpc : ClosePc} {h h' : Handler}
+    (hg : cpc = .returned → closing = true) (ok : HOk closing cpc h)
+    (hs : hstep closing cpc.holdsMu (decide (cpc = .returned)) h (.tunnelEnd) = some h') : HOk closing cpc h' := by
+  obtain ⟨e1, e2, e3, e4, e5, e6, e7, e8, e9, e9', e9'', e10, e11⟩ := ok
+  cases hpc : h.pc <;> simp [hstep, hpc, Pc.readable] at hs
+  all_goals (first | (obtain ⟨hc, hs⟩ := hs; subst hs; hok_tac) | (subst hs; hok_tac))
+
+theorem hstep_ok_h2Stop {closing : Bool} {cpc : ClosePc} {h h' : Handler}
+    (hg : cpc = .returned → closing = true) (ok : HOk closing cpc h)
+    (hs : hstep closing cpc.holdsMu (decide (cpc = .returned)) h (.h2Stop) = some h') : HOk closing cpc h' := by
+  obtain ⟨e1, e2, e3, e4, e5, e6, e7, e8, e9, e9', e9'', e10, e11⟩ := ok
+  cases hpc : h.pc <;> simp [hstep, hpc, Pc.readable] at hs
+  all_goals (first | (obtain ⟨hc, hs⟩ := hs; subst hs; hok_tac) | (subst hs; hok_tac))
+
+theorem hstep_ok_h2PeerEnd {closing : Bool} {cpc : ClosePc} {h h' : Handler}
+    (hg : cpc = .returned → closing = true) (ok : HOk closing cpc h)
+    (hs : hstep closing cpc.holdsMu (decide (cpc = .returned)) h (.h2PeerEnd) = some h') : HOk closing cpc h' := by
+  obtain ⟨e1, e2, e3, e4, e5, e6, e7, e8, e9, e9', e9'', e10, e11⟩ := ok
+  cases hpc : h.pc <;> simp [hstep, hpc, Pc.readable] at hs
+  all_goals (first | (obtain ⟨hc, hs⟩ := hs; subst hs; hok_tac) | (subst hs; hok_tac))
+
+theorem hstep_ok_cwriteEnd {closing : Bool} {cpc : ClosePc} {h h' : Handler}
+    (hg : cpc = .returned → closing = true) (ok : HOk closing cpc h)
+    (hs : hstep closing cpc.holdsMu (decide (cpc = .returned)) h (.cwriteEnd) = some h') : HOk closing cpc h' := by
+  obtain ⟨e1, e2, e3, e4, e5, e6, e7, e8, e9, e9', e9'', e10, e11⟩ := ok
+  cases hpc : h.pc <;> simp [hstep, hpc, Pc.readable] at hs
+  subst hs
+  cases hcn : h.conn <;> hok_tac <;> omega
+
+theorem hstep_ok_peeked {closing : Bool} {cpc : ClosePc} {h h' : Handler} {tls : Bool}
+    (hg : cpc = .returned → closing = true) (ok : HOk closing cpc h)
+    (hs : hstep closing cpc.holdsMu (decide (cpc = .returned)) h (.peeked tls) = some h') : HOk closing cpc h' := by
+  obtain ⟨e1, e2, e3, e4, e5, e6, e7, e8, e9, e9', e9'', e10, e11⟩ := ok
+  cases hpc : h.pc <;> simp [hstep, hpc, Pc.readable] at hs
+  subst hs
+  cases tls <;> hok_tac
+
+theorem hstep_ok_handshakeEnd {closing : Bool} {cpc : ClosePc} {h h' : Handler} {r : Hs}
+    (hg : cpc = .returned → closing = true) (ok : HOk closing cpc h)
+    (hs : hstep closing cpc.holdsMu (decide (cpc = .returned)) h (.handshakeEnd r) = some h') : HOk closing cpc h' := by
+  obtain ⟨e1, e2, e3, e4, e5, e6, e7, e8, e9, e9', e9'', e10, e11⟩ := ok
+  cases hpc : h.pc <;> simp [hstep, hpc, Pc.readable] at hs
+  subst hs
+  cases r <;> hok_tac
 
 theorem hstep_ok {closing : Bool} {cpc : ClosePc} {h h' : Handler} {l : HL}
     (hg : cpc = .returned → closing = true) (ok : HOk closing cpc h)
@@ -213,6 +308,19 @@ theorem hstep_ok {closing : Bool} {cpc : ClosePc} {h h' : Handler} {l : HL}
   | writeEnd => exact hstep_ok_writeEnd hg ok hs
   | closeConn => exact hstep_ok_closeConn hg ok hs
   | finish => exact hstep_ok_finish hg ok hs
+  | gotConnect => exact hstep_ok_gotConnect hg ok hs
+  | hijack => exact hstep_ok_hijack hg ok hs
+  | dialStart => exact hstep_ok_dialStart hg ok hs
+  | dialEnd ok' => exact hstep_ok_dialEnd hg ok hs
+  | mitmAccept => exact hstep_ok_mitmAccept hg ok hs
+  | cwriteStart => exact hstep_ok_cwriteStart hg ok hs
+  | cwriteEnd => exact hstep_ok_cwriteEnd hg ok hs
+  | writeErr => exact hstep_ok_writeErr hg ok hs
+  | tunnelEnd => exact hstep_ok_tunnelEnd hg ok hs
+  | peeked tls => exact hstep_ok_peeked hg ok hs
+  | handshakeEnd r => exact hstep_ok_handshakeEnd hg ok hs
+  | h2Stop => exact hstep_ok_h2Stop hg ok hs
+  | h2PeerEnd => exact hstep_ok_h2PeerEnd hg ok hs
 
 /-! ### facts about the control part of `hstep` -/
 
@@ -220,7 +328,7 @@ theorem hstep_pc_ne_accepted {c mu r : Bool} {h h' : Handler} {l : HL}
     (hs : hstep c mu r h l = some h') : h'.pc ≠ .accepted := by
   cases l <;> cases hpc : h.pc <;> simp [hstep, hpc, Pc.readable] at hs
   all_goals (first | (obtain ⟨_, hs⟩ := hs; subst hs; simp) | (subst hs; simp) | skip)
-  all_goals (first | (cases c <;> simp; done) | (rename_i b; cases b <;> simp))
+  all_goals (first | (cases c <;> simp; done) | (split <;> simp; done) | (rename_i b; cases b <;> simp))
 
 theorem hstep_from_accepted {c mu r : Bool} {h h' : Handler} {l : HL}
     (hs : hstep c mu r h l = some h') (hp : h.pc = .accepted) : l = .spawn := by
@@ -241,7 +349,7 @@ theorem hstep_counted {c mu r : Bool} {h h' : Handler} {l : HL}
     (l ≠ .add → l ≠ .finish → h'.pc.counted = h.pc.counted) := by
   cases l <;> cases hpc : h.pc <;> simp [hstep, hpc, Pc.readable] at hs
   all_goals (first | (obtain ⟨_, hs⟩ := hs; subst hs; simp [Pc.counted]) | (subst hs; simp [Pc.counted]) | skip)
-  all_goals (first | (cases c <;> simp [Pc.counted]; done) | (rename_i b; cases b <;> simp [Pc.counted]))
+  all_goals (first | (cases c <;> simp [Pc.counted]; done) | (split <;> simp [Pc.counted]; done) | (cases hcn : h.conn <;> simp [Pc.counted]; done) | (rename_i b; cases b <;> simp [Pc.counted]))
 
 theorem cnt_set {hs : List Handler} {k : Nat} {h h' : Handler} (hk : hs[k]? = some h) :
     cnt (hs.set k h') + (if h.pc.counted then 1 else 0) = cnt hs + (if h'.pc.counted then 1 else 0) := by
@@ -454,6 +562,14 @@ theorem step_good {s s' : Sys} {l : Label} (g : Good s) (hs : step s l = some s'
     · intro h hm
       have hz := (g.hok h hm).zero hc
       exact (g.hok h hm).mono id (by intro e; cases e) (fun _ => afterClosing_of_not_counted hz)
+  | closeCall2 =>
+    simp only [step] at hs
+    cases hs
+    exact ⟨g.chan, g.wg, g.hok, g.acc⟩
+  | closeChan2 =>
+    simp only [step] at hs
+    split at hs <;> cases hs
+    exact ⟨g.chan, g.wg, g.hok, g.acc⟩
 
 theorem run_good {sched : List Label} {s s' : Sys} (g : Good s) (hr : run s sched = some s') : Good s' := by
   induction sched generalizing s with
@@ -487,8 +603,10 @@ theorem reachable_step {s s' : Sys} {l : Label} (h : Reachable s) (hs : step s l
 
 def Pc.rank : Pc → Nat
   | .accepted => 20 | .spawned => 19 | .added => 18 | .haveReq => 17 | .inReqmod => 16 | .postReqmod => 15
-  | .inRoundTrip => 14 | .postRoundTrip => 13 | .inResmod => 12 | .postResmod => 11
-  | .decided _ => 10 | .writing _ => 9 | .idleRead => 4 | .midHead => 3
+  | .inRoundTrip => 14 | .dialing => 14 | .postRoundTrip => 13 | .inResmod => 12 | .postResmod => 11
+  | .decided _ => 10 | .cwriting => 10 | .writing _ => 9
+  | .tunnel => 8 | .mitmPeek => 8 | .mitmHandshake => 7 | .h2session => 6
+  | .idleRead => 4 | .midHead => 3
   | .closingConn => 2 | .closed => 1 | .done => 0
 
 def ClosePc.rank : ClosePc → Nat
@@ -499,11 +617,16 @@ def AccPc.rank : AccPc → Nat
 
 def hsum (hs : List Handler) : Nat := (hs.map (·.pc.rank)).sum
 
-/-- Termination measure: strictly decreased by every move of the proxy itself. -/
-def measure (s : Sys) : Nat := hsum s.hs + s.cpc.rank + s.acc.rank
+/-- Termination measure: strictly decreased by every move of the proxy itself and by every move of a
+peer that ends the wait of a peer-blocked handler. -/
+def measure (s : Sys) : Nat := hsum s.hs + s.cpc.rank + s.acc.rank + s.extra
 
 /-- Shutdown is complete: `Close` has returned and every accepted connection's handler is done. -/
 def Final (s : Sys) : Prop := s.cpc = .returned ∧ ∀ h ∈ s.hs, h.pc = .done
+
+/-- Moves that drain the proxy: its own moves and the peer moves that end an open tunnel / a pending
+MITM handshake. -/
+def Label.drain (l : Label) : Bool := l.internal || l.peerMove
 
 theorem hsum_set {hs : List Handler} {k : Nat} {h h' : Handler} (hk : hs[k]? = some h) :
     hsum (hs.set k h') + h.pc.rank = hsum hs + h'.pc.rank := by
@@ -520,17 +643,32 @@ theorem hsum_set {hs : List Handler} {k : Nat} {h h' : Handler} (hk : hs[k]? = s
       simp only [List.set_cons_succ, hsum, List.map_cons, List.sum_cons] at this ⊢
       omega
 
+/-- Every handler step except the arrival of a new request decreases the rank. -/
 theorem hstep_rank {c mu r : Bool} {h h' : Handler} {l : HL}
-    (hs : hstep c mu r h l = some h') (hl : ∀ rc, l ≠ .gotReq rc) : h'.pc.rank < h.pc.rank := by
+    (hs : hstep c mu r h l = some h') (hl : ∀ rc, l ≠ .gotReq rc) (hl2 : l ≠ .gotConnect) :
+    h'.pc.rank < h.pc.rank := by
   cases l <;> cases hpc : h.pc <;> simp [hstep, hpc, Pc.readable] at hs
   all_goals (first | (obtain ⟨_, hs⟩ := hs; subst hs; simp [Pc.rank]; done) | (subst hs; simp [Pc.rank]; done) | skip)
-  all_goals (first | (subst hs; cases c <;> simp [Pc.rank]; done) | (subst hs; rename_i b; cases b <;> simp [Pc.rank]; done) | (exact absurd rfl (hl _)))
+  all_goals (first
+    | (subst hs; cases c <;> simp [Pc.rank]; done)
+    | (subst hs; split <;> simp [Pc.rank]; done)
+    | (subst hs; cases hcn : h.conn <;> simp [Pc.rank]; done)
+    | (subst hs; rename_i b; cases b <;> simp [Pc.rank]; done)
+    | (exact absurd rfl (hl _))
+    | (exact absurd rfl hl2))
 
-theorem internal_step_decreases {s s' : Sys} {l : Label} (hs : step s l = some s') (hi : l.internal = true) :
+theorem drain_step_decreases {s s' : Sys} {l : Label} (hs : step s l = some s') (hi : l.drain = true) :
     measure s' < measure s := by
   cases l with
-  | accept => simp [Label.internal] at hi
-  | closeCall => simp [Label.internal] at hi
+  | accept => simp [Label.drain, Label.internal, Label.peerMove] at hi
+  | closeCall => simp [Label.drain, Label.internal, Label.peerMove] at hi
+  | closeCall2 => simp [Label.drain, Label.internal, Label.peerMove] at hi
+  | closeChan2 =>
+    simp only [step] at hs
+    split at hs <;> cases hs
+    rename_i hc
+    simp only [measure]
+    omega
   | serveCheck =>
     simp only [step] at hs
     split at hs <;> cases hs
@@ -559,7 +697,9 @@ theorem internal_step_decreases {s s' : Sys} {l : Label} (hs : step s l = some s
     simp [measure, hc, ClosePc.rank]
   | h k l =>
     have hl : ∀ rc, l ≠ .gotReq rc := by
-      intro rc e; subst e; simp [Label.internal] at hi
+      intro rc e; subst e; simp [Label.drain, Label.internal, Label.peerMove] at hi
+    have hl2 : l ≠ .gotConnect := by
+      intro e; subst e; simp [Label.drain, Label.internal, Label.peerMove] at hi
     simp only [step] at hs
     split at hs
     · cases hs
@@ -571,7 +711,7 @@ theorem internal_step_decreases {s s' : Sys} {l : Label} (hs : step s l = some s
         · cases hs
         · rename_i h' hh
           cases hs
-          have hr := hstep_rank hh hl
+          have hr := hstep_rank hh hl hl2
           have hset := hsum_set (h' := h') hk
           simp only [measure]
           have hacc : (if l = .spawn then AccPc.top else s.acc).rank ≤ s.acc.rank := by
@@ -585,6 +725,10 @@ theorem internal_step_decreases {s s' : Sys} {l : Label} (hs : step s l = some s
             · simp [e]
           omega
 
+theorem internal_step_decreases {s s' : Sys} {l : Label} (hs : step s l = some s') (hi : l.internal = true) :
+    measure s' < measure s :=
+  drain_step_decreases hs (by simp [Label.drain, hi])
+
 theorem step_cpc_ne_idle {s s' : Sys} {l : Label} (hs : step s l = some s') (hc : s.cpc ≠ .idle) :
     s'.cpc ≠ .idle := by
   cases l <;> simp only [step] at hs
@@ -595,49 +739,70 @@ theorem step_cpc_ne_idle {s s' : Sys} {l : Label} (hs : step s l = some s') (hc 
       · cases hs
       · split at hs <;> cases hs
         exact hc
+  case closeCall2 => cases hs; exact hc
   all_goals (split at hs <;> cases hs) <;> first | exact hc | simp
 
-/-- The next move of a counted handler once shutdown has been signalled. -/
-def Pc.next : Pc → HL
+/-- The next move of a counted handler once shutdown has been signalled. For a peer-blocked handler it
+is the move of the peer that ends the wait. -/
+def Handler.next (h : Handler) : HL :=
+  match h.pc with
   | .added => .checkClosing
   | .idleRead | .midHead => .closingSeen
   | .haveReq => .reqmodStart
   | .inReqmod => .reqmodEnd
-  | .postReqmod => .rtStart
+  | .postReqmod => if h.conn = .no then .rtStart else .dialStart
   | .inRoundTrip => .rtEnd false
+  | .dialing => .dialEnd false
   | .postRoundTrip => .resmodStart
   | .inResmod => .resmodEnd
-  | .postResmod => .decide
+  | .postResmod => if h.conn = .no then .decide else .cwriteStart
   | .decided _ => .writeStart
   | .writing _ => .writeEnd
+  | .cwriting => .cwriteEnd
+  | .h2session => .h2Stop
+  | .tunnel => .tunnelEnd
+  | .mitmPeek => .peeked false
+  | .mitmHandshake => .handshakeEnd .fail
   | .closingConn => .closeConn
   | _ => .finish
 
 theorem next_enabled {mu r : Bool} {h : Handler} (hc : h.pc.counted = true) :
-    (hstep true mu r h h.pc.next).isSome = true ∧ h.pc.next ≠ .spawn ∧ (Label.h 0 h.pc.next).internal = true := by
-  cases hp : h.pc <;> simp_all [Pc.counted, Pc.next, hstep, Pc.readable, Label.internal]
+    (hstep true mu r h h.next).isSome = true ∧ h.next ≠ .spawn ∧
+    ((Label.h 0 h.next).internal = true ∨
+      (h.pc.peerBlocked = true ∧ (Label.h 0 h.next).peerMove = true)) := by
+  cases hp : h.pc <;> cases hcn : h.conn <;>
+    simp_all [Pc.counted, Handler.next, hstep, Pc.readable, Label.internal, Label.peerMove, Pc.peerBlocked]
 
 theorem internal_h_irrel (k : Nat) (l : HL) : (Label.h k l).internal = (Label.h 0 l).internal := by
   cases l <;> rfl
 
-theorem progress {s : Sys} (hr : Reachable s) (hc : s.cpc ≠ .idle) (hnf : ¬ Final s) :
-    ∃ l, l.internal = true ∧ (step s l).isSome = true := by
+theorem peerMove_h_irrel (k : Nat) (l : HL) : (Label.h k l).peerMove = (Label.h 0 l).peerMove := by
+  cases l <;> rfl
+
+/-- Progress: after `Close` was called and before shutdown is complete some move is enabled that is
+either a move of the proxy itself or the peer move that ends the wait of a peer-blocked handler. -/
+theorem progress_gen {s : Sys} (hr : Reachable s) (hc : s.cpc ≠ .idle) (hnf : ¬ Final s) :
+    ∃ l, (step s l).isSome = true ∧
+      (l.internal = true ∨ (l.peerMove = true ∧ ∃ h ∈ s.hs, h.pc.peerBlocked = true)) := by
   have g := reachable_good hr
   by_cases hcalled : s.cpc = .called
-  · exact ⟨.closeChan, rfl, by simp [step, hcalled]⟩
+  · exact ⟨.closeChan, by simp [step, hcalled], Or.inl rfl⟩
   have hclosing : s.closing = true := by
     rw [g.chan]; cases hcp : s.cpc <;> simp_all [ClosePc.chanIsClosed]
   by_cases hex : ∃ h ∈ s.hs, h.pc.counted = true
   · obtain ⟨h, hm, hcnt⟩ := hex
     obtain ⟨k, hk⟩ := List.getElem?_of_mem hm
     have hn := next_enabled (mu := s.cpc.holdsMu) (r := decide (s.cpc = .returned)) hcnt
-    refine ⟨.h k h.pc.next, by rw [internal_h_irrel]; exact hn.2.2, ?_⟩
-    simp only [step, hk, hclosing]
-    have : ¬(h.pc.next = .spawn ∧ s.acc ≠ .holding k) := fun e => hn.2.1 e.1
-    simp only [this, if_false]
-    cases hh : hstep true s.cpc.holdsMu (decide (s.cpc = .returned)) h h.pc.next with
-    | none => rw [hh] at hn; simp at hn
-    | some h' => simp
+    refine ⟨.h k h.next, ?_, ?_⟩
+    · simp only [step, hk, hclosing]
+      have : ¬(h.next = .spawn ∧ s.acc ≠ .holding k) := fun e => hn.2.1 e.1
+      simp only [this, if_false]
+      cases hh : hstep true s.cpc.holdsMu (decide (s.cpc = .returned)) h h.next with
+      | none => rw [hh] at hn; simp at hn
+      | some h' => simp
+    · rcases hn.2.2 with h1 | ⟨h1, h2⟩
+      · left; rw [internal_h_irrel]; exact h1
+      · right; rw [peerMove_h_irrel]; exact ⟨h2, h, hm, h1⟩
   · have hunc : ∀ h ∈ s.hs, h.pc.counted = false := by
       intro h hm
       cases hcn : h.pc.counted with
@@ -648,9 +813,9 @@ theorem progress {s : Sys} (hr : Reachable s) (hc : s.cpc ≠ .idle) (hnf : ¬ F
     cases hcp : s.cpc with
     | idle => exact absurd hcp hc
     | called => exact absurd hcp hcalled
-    | chanClosed => exact ⟨.lock, rfl, by simp [step, hcp]⟩
-    | locked => exact ⟨.waitZero, rfl, by simp [step, hcp, hwg]⟩
-    | zeroSeen => exact ⟨.ret, rfl, by simp [step, hcp]⟩
+    | chanClosed => exact ⟨.lock, by simp [step, hcp], Or.inl rfl⟩
+    | locked => exact ⟨.waitZero, by simp [step, hcp, hwg], Or.inl rfl⟩
+    | zeroSeen => exact ⟨.ret, by simp [step, hcp], Or.inl rfl⟩
     | returned =>
       have : ∃ h ∈ s.hs, h.pc ≠ .done := by
         apply Classical.byContradiction
@@ -666,9 +831,26 @@ theorem progress {s : Sys} (hr : Reachable s) (hc : s.cpc ≠ .idle) (hnf : ¬ F
       cases hp : h.pc <;> simp_all [Pc.counted]
       · -- accepted: `Serve` holds it, the `go` statement is enabled
         have hacc := (g.acc k h hk).mp hp
-        exact ⟨.h k .spawn, rfl, by simp [step, hk, hacc, hstep, hp]⟩
+        exact ⟨.h k .spawn, by simp [step, hk, hacc, hstep, hp], Or.inl rfl⟩
       · -- spawned: `connsMu` is free again, `conns.Add(1)` is enabled
-        exact ⟨.h k .add, rfl, by simp [step, hk, hstep, hp, hcp, ClosePc.holdsMu]⟩
+        exact ⟨.h k .add, by simp [step, hk, hstep, hp, hcp, ClosePc.holdsMu], Or.inl rfl⟩
+
+/-- Progress by drain moves. -/
+theorem progress {s : Sys} (hr : Reachable s) (hc : s.cpc ≠ .idle) (hnf : ¬ Final s) :
+    ∃ l, l.drain = true ∧ (step s l).isSome = true := by
+  obtain ⟨l, h1, h2⟩ := progress_gen hr hc hnf
+  refine ⟨l, ?_, h1⟩
+  rcases h2 with h2 | ⟨h2, _⟩ <;> simp [Label.drain, h2]
+
+/-- Progress by moves of the proxy alone when no handler waits for a peer. -/
+theorem progress_internal {s : Sys} (hr : Reachable s) (hc : s.cpc ≠ .idle) (hnf : ¬ Final s)
+    (hnb : ∀ h ∈ s.hs, h.pc.peerBlocked = false) :
+    ∃ l, l.internal = true ∧ (step s l).isSome = true := by
+  obtain ⟨l, h1, h2⟩ := progress_gen hr hc hnf
+  refine ⟨l, ?_, h1⟩
+  rcases h2 with h2 | ⟨_, h, hm, hb⟩
+  · exact h2
+  · rw [hnb h hm] at hb; cases hb
 
 /-! ### shutdown observable before the close decision ⇒ that response is marked -/
 
@@ -677,34 +859,38 @@ def Pc.beforeDecision : Pc → Bool
   | .inReqmod | .postReqmod | .inRoundTrip | .postRoundTrip | .inResmod | .postResmod => true
   | _ => false
 
-/-- Tracking exchange number `c` of a handler: either it is still in flight and can only be decided
-"close", or it is complete and recorded as marked. -/
-def Track (c : Nat) (h : Handler) : Prop :=
-  (h.completed = c ∧ h.marks.length = c ∧
+/-- Tracking the (non-CONNECT) exchange that will produce recorded response number `i` of a handler:
+either it is still in flight and can only be decided "close", or it is complete and recorded as marked,
+or it was dropped (hijacked by a modifier, or its write failed because the client went away) and the
+handler is on its way out, so that no further response is ever recorded. -/
+def Track (i : Nat) (h : Handler) : Prop :=
+  (h.marks.length = i ∧ h.conn = .no ∧
     (h.pc.beforeDecision = true ∨ h.pc = .decided true ∨ h.pc = .writing true)) ∨
-  (c < h.completed ∧ ∃ o a, h.marks[c]? = some (o, a, true))
+  (i < h.marks.length ∧ ∃ o a, h.marks[i]? = some (o, a, true)) ∨
+  (h.marks.length = i ∧ h.pc.winding = true)
 
-theorem hstep_track {c : Nat} {mu r : Bool} {h h' : Handler} {l : HL}
-    (ht : Track c h) (hs : hstep true mu r h l = some h') : Track c h' := by
-  rcases ht with ⟨h1, h2, h3⟩ | ⟨h1, o, a, h2⟩
+theorem hstep_track {i : Nat} {mu r : Bool} {h h' : Handler} {l : HL}
+    (ht : Track i h) (hs : hstep true mu r h l = some h') : Track i h' := by
+  rcases ht with ⟨h2, hcn, h3⟩ | ⟨hlt, o, a, h2⟩ | ⟨h2, hw⟩
   · rcases h3 with h3 | h3 | h3
-    · cases l <;> cases hpc : h.pc <;> simp [hstep, hpc, Pc.readable, Pc.beforeDecision] at hs h3
-      all_goals (subst hs; left; simp [h1, h2, Pc.beforeDecision])
-    · cases l <;> simp [hstep, h3, Pc.readable] at hs
-      subst hs; left; simp [h1, h2]
-    · cases l <;> simp [hstep, h3, Pc.readable] at hs
-      subst hs; right
-      refine ⟨by simp [h1], h.obsAtDecision, h.reqClose || h.resClose, ?_⟩
-      simp [← h2]
-  · have hlt : c < h.marks.length := by
-      rcases List.getElem?_eq_some_iff.mp h2 with ⟨hlt, _⟩; exact hlt
-    cases l <;> cases hpc : h.pc <;> simp [hstep, hpc, Pc.readable] at hs
+    · cases l <;> cases hpc : h.pc <;> simp [hstep, hpc, hcn, Pc.readable, Pc.beforeDecision] at hs h3
+      all_goals (subst hs; simp [Track, h2, hcn, Pc.beforeDecision, Pc.winding])
+    · cases l <;> simp [hstep, h3, hcn, Pc.readable] at hs
+      subst hs; left; simp [h2, hcn]
+    · cases l <;> simp [hstep, h3, hcn, Pc.readable] at hs
+      · subst hs; right; left
+        refine ⟨by simp [h2], h.obsAtDecision, h.reqClose || h.resClose, ?_⟩
+        simp [← h2]
+      · subst hs; right; right; simp [h2, Pc.winding]
+  · cases l <;> cases hpc : h.pc <;> simp [hstep, hpc, Pc.readable] at hs
     all_goals (first | (obtain ⟨_, hs⟩ := hs; subst hs) | subst hs)
-    all_goals right
+    all_goals (right; left)
     all_goals first
-      | exact ⟨h1, o, a, h2⟩
+      | exact ⟨hlt, o, a, h2⟩
       | (refine ⟨by simp; omega, o, a, ?_⟩
          simp [List.getElem?_append_left hlt, h2])
+  · cases l <;> cases hpc : h.pc <;> simp [hstep, hpc, Pc.readable, Pc.winding] at hs hw
+    all_goals (subst hs; right; right; simp [h2, Pc.winding])
 
 theorem step_track {s s' : Sys} {l : Label} {k c : Nat} {h : Handler}
     (hc : s.closing = true) (hk : s.hs[k]? = some h) (ht : Track c h) (hs : step s l = some s') :
@@ -742,6 +928,8 @@ theorem step_track {s s' : Sys} {l : Label} {k c : Nat} {h : Handler}
   | lock => simp only [step] at hs; split at hs <;> cases hs; exact ⟨hc, h, hk, ht⟩
   | waitZero => simp only [step] at hs; split at hs <;> cases hs; exact ⟨hc, h, hk, ht⟩
   | ret => simp only [step] at hs; split at hs <;> cases hs; exact ⟨hc, h, hk, ht⟩
+  | closeCall2 => simp only [step] at hs; cases hs; exact ⟨hc, h, hk, ht⟩
+  | closeChan2 => simp only [step] at hs; split at hs <;> cases hs; exact ⟨hc, h, hk, ht⟩
 
 theorem run_track {sched : List Label} {s s' : Sys} {k c : Nat} {h : Handler}
     (hc : s.closing = true) (hk : s.hs[k]? = some h) (ht : Track c h) (hr : run s sched = some s') :
@@ -755,5 +943,169 @@ theorem run_track {sched : List Label} {s s' : Sys} {k c : Nat} {h : Handler}
     · rename_i s1 h1
       obtain ⟨hc1, h1', hk1, ht1⟩ := step_track hc hk ht h1
       exact ih hc1 hk1 ht1 hr
+
+/-! ### round 3: faults, plain handlers, further `Close` callers -/
+
+/-- The fault counters change only by their own labels. -/
+theorem hstep_faults {c mu r : Bool} {h h' : Handler} {l : HL} (hs : hstep c mu r h l = some h') :
+    (l ≠ .writeErr → h'.aborted = h.aborted) ∧ (l ≠ .hijack → h'.hijacked = h.hijacked) ∧
+    (l = .writeErr → h'.aborted = h.aborted + 1) ∧ (l = .hijack → h'.hijacked = h.hijacked + 1) := by
+  cases l <;> cases hpc : h.pc <;> simp [hstep, hpc, Pc.readable] at hs
+  all_goals (first | (obtain ⟨_, hs⟩ := hs; subst hs; simp) | (subst hs; simp))
+
+/-- No response write has failed and no modifier has hijacked on any connection. -/
+def NoFaults (s : Sys) : Prop := ∀ h ∈ s.hs, h.aborted = 0 ∧ h.hijacked = 0
+
+def Label.isFault : Label → Bool
+  | .h _ .writeErr | .h _ .hijack => true
+  | _ => false
+
+theorem step_noFaults {s s' : Sys} {l : Label} (hn : NoFaults s) (hl : l.isFault = false)
+    (hs : step s l = some s') : NoFaults s' := by
+  cases l with
+  | h k l =>
+    simp only [step] at hs
+    split at hs
+    · cases hs
+    · rename_i h hk
+      split at hs
+      · cases hs
+      · split at hs
+        · cases hs
+        · rename_i h' hh
+          cases hs
+          intro x hx
+          rcases List.mem_or_eq_of_mem_set hx with hx | hx
+          · exact hn x hx
+          · subst hx
+            have hf := hstep_faults hh
+            have h0 := hn h (List.mem_of_getElem? hk)
+            have h1 : l ≠ .writeErr := by intro e; subst e; simp [Label.isFault] at hl
+            have h2 : l ≠ .hijack := by intro e; subst e; simp [Label.isFault] at hl
+            exact ⟨by rw [hf.1 h1]; exact h0.1, by rw [hf.2.1 h2]; exact h0.2⟩
+  | accept =>
+    simp only [step] at hs
+    split at hs <;> cases hs
+    intro x hx
+    rcases List.mem_append.mp hx with hx | hx
+    · exact hn x hx
+    · simp at hx; subst hx; exact ⟨rfl, rfl⟩
+  | closeCall2 => simp only [step] at hs; cases hs; exact hn
+  | serveCheck => simp only [step] at hs; split at hs <;> cases hs; exact hn
+  | closeCall => simp only [step] at hs; split at hs <;> cases hs; exact hn
+  | closeChan => simp only [step] at hs; split at hs <;> cases hs; exact hn
+  | lock => simp only [step] at hs; split at hs <;> cases hs; exact hn
+  | waitZero => simp only [step] at hs; split at hs <;> cases hs; exact hn
+  | ret => simp only [step] at hs; split at hs <;> cases hs; exact hn
+  | closeChan2 => simp only [step] at hs; split at hs <;> cases hs; exact hn
+
+theorem run_noFaults {sched : List Label} {s s' : Sys} (hn : NoFaults s)
+    (hl : ∀ l ∈ sched, l.isFault = false) (hr : run s sched = some s') : NoFaults s' := by
+  induction sched generalizing s with
+  | nil => simp [run] at hr; subst hr; exact hn
+  | cons l ls ih =>
+    simp only [run] at hr
+    split at hr
+    · cases hr
+    · rename_i s1 h1
+      exact ih (step_noFaults hn (hl l (by simp)) h1) (fun x hx => hl x (by simp [hx])) hr
+
+/-- A handler from which no tunnel can arise without a new request: it is not waiting for a peer, not
+inside the CONNECT-only steps, and the exchange it is in (if any) is not a CONNECT. -/
+def Handler.plain (h : Handler) : Bool :=
+  !h.pc.peerBlocked && h.pc != .dialing && h.pc != .cwriting &&
+    (!(h.pc.inExchange || h.pc == .haveReq) || h.conn == .no)
+
+theorem hstep_plain {c mu r : Bool} {h h' : Handler} {l : HL} (hs : hstep c mu r h l = some h')
+    (hp : h.plain = true) (hl : l ≠ .gotConnect) : h'.plain = true := by
+  cases l <;> cases hpc : h.pc <;> simp [hstep, hpc, Pc.readable] at hs
+  all_goals (first | (exact absurd rfl hl) | skip)
+  all_goals (first | (obtain ⟨hc, hs⟩ := hs; subst hs) | (subst hs))
+  all_goals (simp [Handler.plain, hpc, Pc.peerBlocked, Pc.inExchange] at hp ⊢)
+  all_goals (first
+    | done
+    | (simp_all; done)
+    | (cases c <;> simp [Pc.peerBlocked, Pc.inExchange]; done)
+    | (split <;> simp_all [Pc.peerBlocked, Pc.inExchange]; done)
+    | (rename_i b; cases b <;> simp_all [Pc.peerBlocked, Pc.inExchange]))
+
+def AllPlain (s : Sys) : Prop := ∀ h ∈ s.hs, h.plain = true
+
+theorem step_allPlain {s s' : Sys} {l : Label} (hp : AllPlain s) (hl : ∀ k, l ≠ .h k .gotConnect)
+    (hs : step s l = some s') : AllPlain s' := by
+  cases l with
+  | h k l =>
+    simp only [step] at hs
+    split at hs
+    · cases hs
+    · rename_i h hk
+      split at hs
+      · cases hs
+      · split at hs
+        · cases hs
+        · rename_i h' hh
+          cases hs
+          intro x hx
+          rcases List.mem_or_eq_of_mem_set hx with hx | hx
+          · exact hp x hx
+          · subst hx
+            exact hstep_plain hh (hp h (List.mem_of_getElem? hk)) (by intro e; subst e; exact hl k rfl)
+  | accept =>
+    simp only [step] at hs
+    split at hs <;> cases hs
+    intro x hx
+    rcases List.mem_append.mp hx with hx | hx
+    · exact hp x hx
+    · simp at hx; subst hx; rfl
+  | closeCall2 => simp only [step] at hs; cases hs; exact hp
+  | serveCheck => simp only [step] at hs; split at hs <;> cases hs; exact hp
+  | closeCall => simp only [step] at hs; split at hs <;> cases hs; exact hp
+  | closeChan => simp only [step] at hs; split at hs <;> cases hs; exact hp
+  | lock => simp only [step] at hs; split at hs <;> cases hs; exact hp
+  | waitZero => simp only [step] at hs; split at hs <;> cases hs; exact hp
+  | ret => simp only [step] at hs; split at hs <;> cases hs; exact hp
+  | closeChan2 => simp only [step] at hs; split at hs <;> cases hs; exact hp
+
+theorem plain_not_blocked {h : Handler} (hp : h.plain = true) : h.pc.peerBlocked = false := by
+  simp [Handler.plain] at hp
+  exact hp.1.1.1
+
+/-- Bookkeeping of the further `Close` callers: every such call is still pending or has panicked. -/
+def CallsOk (s : Sys) : Prop := s.calls2 = s.extra + s.panics
+
+theorem step_callsOk {s s' : Sys} {l : Label} (hc : CallsOk s) (hs : step s l = some s') : CallsOk s' := by
+  cases l with
+  | h k l =>
+    simp only [step] at hs
+    split at hs
+    · cases hs
+    · split at hs
+      · cases hs
+      · split at hs <;> cases hs
+        exact hc
+  | closeCall2 => simp only [step] at hs; cases hs; simp only [CallsOk] at hc ⊢; omega
+  | closeChan2 =>
+    simp only [step] at hs
+    split at hs <;> cases hs
+    rename_i hx
+    simp only [CallsOk] at hc ⊢
+    omega
+  | accept => simp only [step] at hs; split at hs <;> cases hs; exact hc
+  | serveCheck => simp only [step] at hs; split at hs <;> cases hs; exact hc
+  | closeCall => simp only [step] at hs; split at hs <;> cases hs; exact hc
+  | closeChan => simp only [step] at hs; split at hs <;> cases hs; exact hc
+  | lock => simp only [step] at hs; split at hs <;> cases hs; exact hc
+  | waitZero => simp only [step] at hs; split at hs <;> cases hs; exact hc
+  | ret => simp only [step] at hs; split at hs <;> cases hs; exact hc
+
+theorem run_callsOk {sched : List Label} {s s' : Sys} (hc : CallsOk s) (hr : run s sched = some s') : CallsOk s' := by
+  induction sched generalizing s with
+  | nil => simp [run] at hr; subst hr; exact hc
+  | cons l ls ih =>
+    simp only [run] at hr
+    split at hr
+    · cases hr
+    · rename_i s1 h1
+      exact ih (step_callsOk hc h1) hr
 
 end Martian.Shutdown
